@@ -168,11 +168,63 @@ def explore(ctx):
                 ctx.findings.append(dict(key=dict(aspect='isolation-default-memory', dev=d1, other=d2),
                                          what='instances %s/%s created without a memory argument: %s' % (d1, d2, f),
                                          replay=dict(d1=d1, d2=d2)))
+    # (4) 65Org16: an opcode CELL is 16 bits wide; only the 151 documented values (all < 256) are instructions.
+    # A cell value >= 256 must not decode or execute as one (raising -- what the pinned tree does, recorded
+    # as outside C05's and C09's quantifier 0..255 -- or acting as an undeclared opcode are both "not decoded").
+    n_wide = 0
+    for v in wide_opcode_values(rng, 60 if ctx.quick() else 3000):
+        n_wide += 1
+        n_eval += 1
+        f = wide_opcode_case(classes, v)
+        distinct.add(('wide', v & 0xff, v >> 12))
+        if f:
+            ctx.findings.append(dict(key=dict(aspect='opcode-cell-above-255', dev='65Org16'),
+                                     what='65Org16 opcode cell $%04x is not a documented opcode but %s' % (v, f),
+                                     replay=dict(dev='65Org16', cell=v)))
+            break
     ctx.stats['evaluations'] = n_eval
     ctx.stats['distinct_nontrivial'] = len(distinct)
     ctx.stats['traces_validated_against_impl'] = n_eval
-    ctx.stats['distribution'] = dict(table_rows=768, configurations=len(orders), pair_runs=n_eval - 768 - len(orders))
+    ctx.stats['distribution'] = dict(table_rows=768, configurations=len(orders),
+                                     pair_runs=n_eval - 768 - len(orders) - n_wide, org16_cells_above_255=n_wide)
     ctx.note('tables, %d configurations, isolation runs: %d findings' % (len(orders), len(ctx.findings)))
+
+
+def wide_opcode_values(rng, n):
+    lows = [0xa9, 0x4c, 0x20, 0x00, 0x60, 0xe8, 0x8d, 0xea, 0x69, 0xd0]
+    out = [0x0100, 0x01a9, 0xff4c, 0xffff, 0x8000, 0x0120, 0x10e8]
+    while len(out) < n:
+        out.append((rng.randrange(1, 256) << 8) | (rng.choice(lows) if rng.random() < 0.5 else rng.randrange(256)))
+    return out[:n]
+
+
+def wide_opcode_case(classes, v):
+    """-> None, or how the 65Org16 treats the opcode cell value v >= 256 as an instruction."""
+    from py65.disassembler import Disassembler
+    from py65.utils.addressing import AddressParser
+    from py65.memory import ObservableMemory
+    m = classes['65Org16'](memory=ObservableMemory(addrWidth=32))
+    base = 0x2000
+    for i, c in enumerate([v, 0x0012, 0x0034]):
+        m.memory[base + i] = c
+    m.pc = base
+    m.a, m.x, m.y = 0x11, 0x22, 0x33
+    m.memory[0x12] = 0x77
+    before = (m.a, m.x, m.y, m.sp, m.p)
+    try:
+        m.step()
+        after = (m.a, m.x, m.y, m.sp, m.p)
+        if after != before or m.pc != base + 1:
+            return 'step() executed it: registers %r -> %r, pc +%d' % (before, after, m.pc - base)
+    except Exception:
+        pass
+    try:
+        n, text = Disassembler(m, AddressParser(maxwidth=32)).instruction_at(base)
+        if not text.startswith('???'):
+            return 'the disassembler shows it as %r' % text
+    except Exception:
+        pass
+    return None
 
 
 def snapshot(m):
@@ -264,6 +316,10 @@ def replay(ctx, path):
     print(json.dumps(obj.get('finding', obj), indent=1)[:2000])
     f = obj.get('finding', {}).get('replay', {})
     classes = device_classes()
+    if 'cell' in f:
+        r = wide_opcode_case(classes, f['cell'])
+        print('now: 65Org16 opcode cell $%04x: %s' % (f['cell'], r or 'not decoded (raises or acts as undeclared)'))
+        return 1 if r else 0
     if 'opcode' in f and 'dev' in f and 'table' not in f:
         dev, op = f['dev'], f['opcode']
         print('now: table', classes[dev].disassemble[op], 'handler', classes[dev].instruct[op].__name__,
